@@ -7,6 +7,9 @@ Script (JSON-able dict):
     ["R", t, remote, mtype, mid, tokenhex, obs|None]      GET /obs from observer `remote`
     ["M", t, remote, mtype, code, mid, tokenhex]          any other datagram (empty ACK/RST, ping ...)
     ["E", t, remote]   transport error        ["X", t]   Context.shutdown()
+    ["F", t, remote, n]  the next n sendmsg() calls towards observer `remote` fail with ENETUNREACH: the
+                         transport reports the error SYNCHRONOUSLY, from inside the send (udp6: sendmsg raises ->
+                         error_received -> dispatch_error before send() returns); n = 0 disarms
     ["U", t, code|None]                       state change + updated_state(None | Message(code))
     ["T", t, sv, code|None, is_last]          state change + servobs[sv].trigger(...)
     ["D", t, sv]                              servobs[sv].deregister()
@@ -23,7 +26,7 @@ Script (JSON-able dict):
             (such scripts are judged by the oracle only: the model takes add_observation as one step)
   draws: ACK time-outs in ticks;  mid: pinned first message id;  end: tick at which the run stops
 
-Records (out):  s@t:remote:wire   d:sv:remote:wire   x:sv   c:n   k:sv   g:sv:ver   n:sv:code:obs:body:last
+Records (out):  s@t:remote:wire   f@t:remote:wire (a send that failed)   d:sv:remote:wire   x:sv   c:n   k:sv   g:sv:ver   n:sv:code:obs:body:last
 """
 import asyncio
 import contextvars
@@ -78,6 +81,8 @@ def in_token(ev):
         return f"E@{ev[1]}:{ev[2]}"
     if k == "X":
         return f"X@{ev[1]}"
+    if k == "F":
+        return f"F@{ev[1]}:{ev[2]}:{ev[3]}"
     if k == "U":
         return f"U@{ev[1]}:{_o(ev[2])}"
     if k == "T":
@@ -98,8 +103,10 @@ class Runner:
         self.sent_count = {}
         self.shut = False
         self.errors = []
+        self.task_errors = []    # exceptions that ended a render task and were not raised by the test resource
         self.task_srv = {}       # asyncio task -> srv
         self.pipe_srv = {}       # id(pipe) -> srv
+        self.pipe_state = {}     # srv -> what the listener on the pipe has seen
         self.pipes = []          # keep pipes alive so ids stay unique
         self.nsrv = 0
         self.servobs = {}
@@ -113,6 +120,10 @@ class Runner:
         self.callbacks_at = {}   # tick -> number of separately scheduled in-callbacks
         self.shutdown_task = None
         self.final = {}
+        self.closed = False
+        self.iteration = 0       # number of the event-loop iteration (a task takes one step per iteration)
+        self.fail_next = {}      # remote -> number of sendmsg calls that are still to fail
+        self.failed = []         # (tick, remote, sv of the task inside which it happened | None)
 
     # ---- logging -------------------------------------------------------------------------------
     def cur_sv(self):
@@ -121,8 +132,12 @@ class Runner:
         except RuntimeError:
             return None
 
-    def rec(self, text, extra=None):
-        self.log.append(("out", text, self.loop.now_ticks(), self.cur_sv(), extra))
+    def rec(self, text, extra=None, discarded=False):
+        """discarded: a response the task put on a pipe that had ended or ended over it (nobody listening to the
+        pipe got to see it)"""
+        if self.closed:
+            return          # the run is over: what the harness's own tear-down provokes is not part of it
+        self.log.append(("out", text, self.loop.now_ticks(), self.cur_sv(), extra, self.iteration, discarded))
 
     def remote_id(self, sockaddr):
         for i in range(8):
@@ -136,6 +151,20 @@ class Runner:
         remote = self.remote_id(dest)
         self.rec(f"s@{tick}:{remote}:{wire_str(p)}")
         self.react(tick, remote, p)
+
+    def sendmsg_hook(self, orig):
+        """wraps the fake network's delivery: a send towards an armed observer raises OSError out of sendmsg(),
+        which the real RecvmsgSelectorDatagramTransport turns into error_received() from inside send()"""
+        def _sent(address, data, ancdata):
+            remote = self.remote_id(address)
+            if self.fail_next.get(remote, 0) > 0:
+                self.fail_next[remote] -= 1
+                tick = self.loop.now_ticks()
+                self.failed.append((tick, remote, self.cur_sv()))
+                self.rec(f"f@{tick}:{remote}:{wire_str(W.parse(data))}")
+                raise OSError(errno.ENETUNREACH, "Network is unreachable")
+            return orig(address, data, ancdata)
+        return _sent
 
     def react(self, tick, remote, p):
         for key in ((remote, p["mtype"]), (remote, None)):
@@ -205,6 +234,9 @@ class Runner:
     def do_E(self, ev):
         self.net.inject_error(errno.ECONNREFUSED, netsim.peer(ev[2]))
 
+    def do_F(self, ev):
+        self.fail_next[ev[2]] = ev[3]
+
     def do_X(self, ev):
         if self.shut:
             return                      # a context is shut down once
@@ -262,25 +294,54 @@ class Runner:
             self.pipes.append(pipe)
             m = pipe.request
             self.rec(f"d:{sv}:{self.remote_id(m.remote.sockaddr)}:{msg_wire_str(m)}")
-            state = {"last": False}
+            state = {"last": False, "seen": 0, "ended": False}
+            self.pipe_state[sv] = state
 
             def on_event(event, sv=sv, state=state):
                 if event.message is not None:
                     m = event.message
+                    state["seen"] += 1
                     self.rec(f"n:{sv}:{int(m.code)}:{_o(m.opt.observe)}:{body_of(m.payload)}:"
                              f"{1 if event.is_last else 0}")
                     if event.is_last:
                         state["last"] = True
-                elif event.exception is None and event.is_last and not state["last"]:
-                    self.rec(f"x:{sv}")
+                elif event.exception is None and event.is_last:
+                    state["ended"] = True
+                    if not state["last"]:
+                        self.rec(f"x:{sv}")
                 return True
 
             pipe.on_event(on_event, is_interest=False)
+
+            # `n:` is "the render task put a response on the pipe".  Normally the listener above sees it (after the
+            # token manager has sent it).  A response put on a pipe that has ended, or that ends while the token
+            # manager handles it, never reaches a listener: it is logged here, when add_response returns.
+            orig_add = pipe.add_response
+
+            def add_response(response, is_last=False, sv=sv, state=state):
+                before = state["seen"]
+                orig_add(response, is_last=is_last)
+                if state["seen"] == before and response is not None:
+                    self.rec(f"n:{sv}:{int(response.code)}:{_o(response.opt.observe)}:{body_of(response.payload)}:"
+                             f"{1 if is_last else 0}", discarded=True)
+
+            pipe.add_response = add_response
             return ctx_render(pipe)
 
         async def site_render_to_pipe(pipe):
-            self.task_srv[asyncio.current_task()] = self.pipe_srv[id(pipe)]
-            return await site_render(pipe)
+            sv = self.pipe_srv[id(pipe)]
+            self.task_srv[asyncio.current_task()] = sv
+            try:
+                return await site_render(pipe)
+            except Exception as e:
+                if not getattr(e, "c08_planned", False):
+                    # not one of the exceptions the test resource raises on purpose: library code failed inside
+                    # the render task (run_driving_pipe will turn it into a 5.00 or drop it)
+                    self.task_errors.append(f"render task of request {sv} died of {type(e).__name__}: {e}")
+                if self.pipe_state[sv]["ended"]:
+                    # the pipe has ended: the error response this exception would be turned into is discarded
+                    self.rec(f"n:{sv}:{exc_code(e)}:-:0:1", discarded=True)
+                raise
 
         self.ctx.render_to_pipe = render_to_pipe
         self.site.render_to_pipe = site_render_to_pipe
@@ -295,6 +356,13 @@ class Runner:
     async def main(self, loop):
         import aiocoap.resource
         self.loop = loop
+        run_once = loop._run_once
+
+        def counted():
+            self.iteration += 1
+            run_once()
+
+        loop._run_once = counted           # the harness's own loop object (vloop.VirtualLoop)
         draws = list(self.script.get("draws", []))
 
         def draw(lo, hi):
@@ -311,6 +379,7 @@ class Runner:
             assert loop.now_ticks() == 0
             self.install()
             self.net.on_send = self.on_send
+            self.net._sent = self.sendmsg_hook(self.net._sent)
             for ev in self.script["events"]:
                 self.schedule(ev)
             await asyncio.sleep(self.script["end"] * vloop.TICK)
@@ -327,6 +396,8 @@ class Runner:
                 await self.shutdown_task
             else:
                 self.net.on_send = None
+                self.fail_next = {}
+                self.closed = True
                 frozen = self.log
                 self.log = []
                 for f in list(self.suspended.values()) + list(self.adding.values()):
@@ -386,12 +457,23 @@ def make_resource(runner):
             else:
                 _, code, exc = plan
             if exc:
-                if code == 160:
-                    raise RuntimeError("render failed")
-                raise EXC[code]()
+                e = RuntimeError("render failed") if code == 160 else EXC[code]()
+                e.c08_planned = True
+                raise e
             return aiocoap.Message(code=aiocoap.Code(code), payload=str(ver).encode())
 
     return Res()
+
+
+def exc_code(e):
+    """the code `error_to_message` answers an exception with"""
+    from aiocoap import error
+    if isinstance(e, error.RenderableError):
+        try:
+            return int(e.to_message().code)
+        except Exception:
+            return 160
+    return 160
 
 
 def default_cfg():
@@ -422,29 +504,35 @@ def run_script(script):
     # step is a maximal run of records logged from inside one render task.
     concrete = []
     records = []
-    cur = None            # [index into concrete, sv, plan, tick]
+    cur = None            # [index into concrete, sv, plan, tick, loop iteration, a send failed]
+    fail_outside = False
     for e in r.log:
         if e[0] == "in":
             cur = None
-            concrete.append(e[1])
+            if not e[1].startswith("F@"):       # arming a send failure is the harness's business, not an event
+                concrete.append(e[1])
             continue
-        _, text, tick, sv, extra = e
+        _, text, tick, sv, extra, it, _disc = e
         records.append(f"{tick}/{text}")
         if sv is None:
             cur = None
+            if text.startswith("f@"):
+                fail_outside = True
             continue
-        if cur is None or cur[1] != sv or cur[3] != tick:
-            cur = [len(concrete), sv, None, tick]
+        if cur is None or cur[1] != sv or cur[3] != tick or cur[4] != it:
+            cur = [len(concrete), sv, None, tick, it, False]
             concrete.append(cur)
         if text.startswith("g:"):
             cur[2] = extra
+        if text.startswith("f@"):
+            cur[5] = True
     conc = []
     for c in concrete:
         if isinstance(c, str):
             conc.append(c)
         else:
-            _, sv, plan, tick = c
-            conc.append(f"W@{tick}:{sv}:{1 if r.accepts.get(sv, True) else 0}:{plan_str(plan)}")
+            _, sv, plan, tick, _it, failed = c
+            conc.append(f"{'WF' if failed else 'W'}@{tick}:{sv}:{1 if r.accepts.get(sv, True) else 0}:{plan_str(plan)}")
     conc.append(f"A@{script['end']}")
     cfg = script.get("cfg") or default_cfg()
     draws_used = [vloop.ticks(v) for (_, _, v) in r.pins.uniform_calls]
@@ -456,10 +544,14 @@ def run_script(script):
         "impl_line": ";".join(records),
         "args": args,
         "same_tick_inputs": any(n > 1 for n in r.callbacks_at.values()),
+        # a send that failed outside a render task's step (a retransmission, an empty ACK, the backlog going on):
+        # the message-layer model has no such input; judged by the oracle only
+        "fail_outside_task": fail_outside,
         "wire": [(t, r.remote_id(d), b.hex()) for (t, d, b) in r.net.sent],
-        "log": [list(e[:4]) if e[0] == "out" else [e[0], e[1], e[2], e[3]] for e in r.log],
+        "log": [list(e[:4]) + [bool(e[6])] if e[0] == "out" else [e[0], e[1], e[2], e[3]] for e in r.log],
         "loop_exceptions": [str(c.get("exception") or c.get("message")) for c in loop.exceptions],
         "errors": r.errors,
+        "task_errors": r.task_errors,
         "final": r.final,
         "accepts": {str(k): v for k, v in r.accepts.items()},
         "cfg": cfg,
